@@ -70,6 +70,10 @@ def make_env(name, cfg):
         return lambda k, y: float(np.sum(np.floor(4.0 * u(y)) / 4.0))
     if name == "quad":
         return lambda k, y: float(np.sum((u(y) - 0.5) ** 2))
+    if name == "cos3":      # symmetric about the centre of the box: equal characteristics left and right
+        return lambda k, y: float(np.sum(np.cos(3.0 * (4.0 * u(y) - 2.0))))
+    if name == "sym":
+        return lambda k, y: float(np.sum(np.abs(u(y) - 0.5)))
     if name == "sin":
         return lambda k, y: float(np.sum(np.sin(7.0 * u(y)) + 0.3 * u(y)))
     raise KeyError(name)
